@@ -8,7 +8,8 @@ from ..comp import lexcluster as lx
 from ..lib import coqrun, driver, env, proofs, report
 
 PROP = "C06"
-PROP_BITS = (1, 2, 3, 4)     # totality / concept-disjointness / per-concept clustering outcome / turchin classes
+PROP_BITS = (1, 2, 3, 4, 6)  # totality / concept-disjointness / per-concept clustering outcome / turchin classes /
+                             # contract of the replayed sca distance
 COUNTS = {"quick": 420, "thorough": 5000}
 
 
@@ -23,11 +24,15 @@ def streams(tier, seed, n=None):
     rng = random.Random(seed)
     n = n or COUNTS[tier]
     per = {"turchin": 0.25, "edit-dist": 0.3, "stub": 0.2, "sca": 0.15, "lexstat": 0.1}
-    out = [("lex_corpus", corpus_cases())]
+    corpus = corpus_cases()
+    out = [("lex_corpus", [c for c in corpus if "calls" not in c]),
+           ("lex_corpus_history", [c for c in corpus if "calls" in c])]
     mod = 121 if tier == "quick" else 5          # the small scope: a seeded 1/121 sample, or 1/5 (moduli coprime to the 12 method x linkage x threshold-pair combinations)
     out.append(("lex_small_scope", [c for i, c in enumerate(lx.exhaustive_cases()) if i % mod == seed % mod]))
     for m, share in per.items():
         out.append(("lex_" + m.replace("-", ""), [lx.gen_case(rng, methods=[m]) for _ in range(int(n * share))]))
+    # call histories on one LexStat object (same / different refs, override, thresholds equal to two decimals)
+    out.append(("lex_history", [lx.gen_history(rng) for _ in range(max(60, n // 4))]))
     return out
 
 
@@ -47,7 +52,8 @@ def main(tier, seed, prop=PROP, prop_bits=PROP_BITS, run=None, n=None):
             if not cases:
                 continue
             # one minimised failing input per stream; once two are reported, later ones are not shrunk
-            st = driver.run_stream(run, lx, cases, d, name, lx.CASE_TYPE, lx.CODE_FN, prop_bits, shard=40,
+            ctype, cfn = lx.case_type(cases[0])
+            st = driver.run_stream(run, lx, cases, d, name, ctype, cfn, prop_bits, shard=40,
                                    max_report=1, shrink=len(run.violations) < 2)
             total_prop += st["prop_fail"] + st["impl_errors"]
     except coqrun.CoqError as e:
@@ -92,7 +98,8 @@ def replay(path):
     case = lx.from_json(rep["case"])
     res = lx.run_impl(case)
     d = coqrun.rundir(PROP + "_replay")
-    bad = coqrun.eval_cases(d, "replay", lx.IMPORTS, lx.CASE_TYPE, lx.CODE_FN, [lx.render(case, res)])
+    ctype, cfn = lx.case_type(case)
+    bad = coqrun.eval_cases(d, "replay", lx.IMPORTS, ctype, cfn, [lx.render(case, res)])
     print(json.dumps({"impl": res, "code": bad.get(0, 0),
                       "failed": [lx.BITS[k] for k in range(8) if bad.get(0, 0) >> k & 1]}, indent=1))
     return 1 if bad else 0
